@@ -247,6 +247,51 @@ class Prop:
                              '%d messages' % len(exp), got if isinstance(got, str) else
                              '%d messages, first difference at #%d' % (len(got), first), {'kind': 'bystander', 'frontend': name})
 
+        # (e) the socket readers and a malformed line that is far too long (a binary blob, a log record, a sentence that
+        # lost its line ending): spread over several packets, its line ending the last byte of a packet, every later
+        # sentence in a packet of its own (UDP, line-buffered TCP) - and the same bytes in other segmentations.  Every
+        # intact message around it is delivered, by every socket reader, exactly as without the malformed line.
+        valid = [base['single'], other_single] + base['two'] + [gen.render(gen.payload_bits(rng, 'MessageType18'), chan='B')[0]
+                                                                 for _ in range(4)]
+        clean_chunks = [l + b'\n' for l in valid]
+        ref = impl.step('socket 0 ' + ' '.join(impl.hx(c) for c in clean_chunks))
+        refd = deliveries(ref)
+        n_socket = 0
+        for n in (300, 1000, 1024, 1025, 1500, 2500, 4000, 4097, 8193, 20000):
+            for head in (b'', b'!AIVDM,1,1,,A,', b'$PXYZ,', b'\\s:x,'):
+                filler = bytes(rng.choice(b'0123456789ABCDEFGHIJKLMNOPQRSTUVWabcdefghijklmnopqrstuvw,.;') for _ in range(n - len(head)))
+                bad = head + filler
+                for term in (b'\n', b'\r\n'):
+                    for piece in (700, 1000, 4096):
+                        pieces = [bad[i:i + piece] for i in range(0, len(bad), piece)]
+                        layouts = [
+                            # the line ending is the last byte of the packet that completes the over-long line
+                            [valid[0] + b'\n'] + pieces[:-1] + [pieces[-1] + term] + [l + b'\n' for l in valid[1:]],
+                            # the line ending travels with the first bytes of the next sentence
+                            [valid[0] + b'\n'] + pieces + [term + valid[1] + b'\n'] + [l + b'\n' for l in valid[2:]],
+                            # ... or in a packet of its own
+                            [valid[0] + b'\n'] + pieces + [term] + [l + b'\n' for l in valid[1:]],
+                        ]
+                        for chunks in layouts:
+                            chunks = [c for c in chunks if c]
+                            o = impl.step('socket 0 ' + ' '.join(impl.hx(c) for c in chunks))
+                            n_socket += 1
+                            inp = {'cmd': 'socket', 'tbq': 0, 'chunks': [c.hex() if len(c) < 200 else '%d bytes' % len(c) for c in chunks],
+                                   'case': 'over-long line of %d bytes (%r…) in pieces of %d' % (n, head, piece)}
+                            if 'CRASH' in o or o.startswith('READERS-DIFFER'):
+                                ctx.fail('a socket reader raised on / the socket readers disagree about an over-long malformed line',
+                                         inp, 'no exception', o[:200], {'kind': 'reader-crash', 'frontend': 'socket'})
+                                continue
+                            got = deliveries(o)
+                            missing = [d for d in refd if d not in got]
+                            if missing:
+                                ctx.fail('a well-formed message was lost or altered by an unrelated malformed line', inp,
+                                         '%d messages' % len(refd), '%d delivered, missing e.g. %s' % (len(got), missing[0][1][:30]),
+                                         {'kind': 'bystander', 'frontend': 'socket'})
+                                break
+        ctx.evaluations += n_socket
+        ctx.corr_commands['socket over-long lines (oracle only)'] = n_socket
+
     def replay(self, ctx, payload):
         inp = payload['failure']['input']
         if inp['cmd'].startswith('decode'):
